@@ -31,6 +31,7 @@ Inductive pat :=
 | PVar (x : string)
 | PLit (v : value)
 | PCon (c : string) (ps : list pat)
+| PRec (c : string) (fps : list (string * pat))     (* `Path { field: pat, .. }`: fields not named are ignored *)
 | POr (ps : list pat).
 
 Inductive expr :=
@@ -198,6 +199,26 @@ Fixpoint pmatch (p : pat) (v : value) {struct p} : option env :=
           else None
       | _ => None
       end
+  | PRec c fps =>
+      match v with
+      | VRec d fs =>
+          if String.eqb c d then
+            (fix go (fps : list (string * pat)) : option env :=
+               match fps with
+               | [] => Some []
+               | (f, q) :: pr =>
+                   match lookup f fs with
+                   | Some w =>
+                       match pmatch q w with
+                       | Some b => match go pr with Some b' => Some (b' ++ b) | None => None end
+                       | None => None
+                       end
+                   | None => None
+                   end
+               end) fps
+          else None
+      | _ => None
+      end
   | POr ps =>
       (fix go (ps : list pat) : option env :=
          match ps with
@@ -205,6 +226,10 @@ Fixpoint pmatch (p : pat) (v : value) {struct p} : option env :=
          | q :: r => match pmatch q v with Some b => Some b | None => go r end
          end) ps
   end.
+
+(* arms of a `match` that are compiled conditionally (`#[cfg(feature = ..)]`): those whose features are all enabled *)
+Definition cfg_arms (enabled : list string) (arms : list (list string * (pat * expr))) : list (pat * expr) :=
+  map snd (filter (fun a => forallb (fun x => existsb (String.eqb x) enabled) (fst a)) arms).
 
 (* ------------------------------------------------------------------------------------------ *)
 (* Built-in functions and methods used by the translated code. *)
@@ -237,6 +262,28 @@ Definition builtin (f : string) (args : list value) : option ctl :=
         Some (CVal (if String.eqb ty t then VCon "Ok" [inner] else VCon "Err" [VCon "anyhow::Error" [VStr ty; inner; VStr txt]]))
     | _ => None
     end
+  else if f =? "push" then match args with [VArr l; v] => Some (CVal (VArr (l ++ [v]))) | _ => None end
+  (* cosmwasm_std::Response: a record of four fields; the `add_*` builder methods append to their list *)
+  else if f =? "Response::new" then
+    match args with
+    | [] => Some (CVal (VRec "Response" [("messages", VArr []); ("attributes", VArr []); ("events", VArr []); ("data", VCon "None" [])]))
+    | _ => None
+    end
+  else if f =? "add_submessages" then
+    match args with
+    | [VRec "Response" [("messages", VArr m); a; e; d]; VArr l] => Some (CVal (VRec "Response" [("messages", VArr (m ++ l)); a; e; d]))
+    | _ => None
+    end
+  else if f =? "add_attributes" then
+    match args with
+    | [VRec "Response" [m; ("attributes", VArr a); e; d]; VArr l] => Some (CVal (VRec "Response" [m; ("attributes", VArr (a ++ l)); e; d]))
+    | _ => None
+    end
+  else if f =? "add_events" then
+    match args with
+    | [VRec "Response" [m; a; ("events", VArr e); d]; VArr l] => Some (CVal (VRec "Response" [m; a; ("events", VArr (e ++ l)); d]))
+    | _ => None
+    end
   else if f =? "unwrap" then
     match args with
     | [VCon "Ok" [v]] | [VCon "Some" [v]] => Some (CVal v)
@@ -247,7 +294,8 @@ Definition builtin (f : string) (args : list value) : option ctl :=
 
 Definition is_builtin (f : string) : bool :=
   existsb (String.eqb f) ["len"; "is_empty"; "konst::cmp_str"; "konst::eq_str"; "into"; "to_string"; "Binary::default";
-                          "unwrap_or_default_string"; "anyhow::is"; "anyhow::downcast"; "unwrap"].
+                          "unwrap_or_default_string"; "anyhow::is"; "anyhow::downcast"; "unwrap"; "push"; "Response::new";
+                          "add_submessages"; "add_attributes"; "add_events"].
 
 Definition binop (op : string) (a b : value) : option ctl :=
   match a, b with
